@@ -923,8 +923,8 @@ func measureAlloc() []string {
 		out = append(out, fmt.Sprintf("%s into %s, %d input bytes (%s): %s, allocated %d bytes = x%d", typ, dst,
 			len(data), vh.Hex(data), ans, delta, delta/uint64(len(data))))
 	}
-	one("list(int)", "slice(int)", []byte{0x00, 0x10, 0x00, 0x00})    // 2^20 elements
-	one("list(int)", "slice(int)", []byte{0x01, 0x00, 0x00, 0x00})    // 2^24 elements
+	one("list(int)", "slice(int)", []byte{0x00, 0x10, 0x00, 0x00})     // 2^20 elements
+	one("list(int)", "slice(int)", []byte{0x01, 0x00, 0x00, 0x00})     // 2^24 elements
 	one("list(text)", "slice(string)", []byte{0x00, 0x40, 0x00, 0x00}) // 2^22 strings
 	one("map(int,int)", "map(int,int)", []byte{0x00, 0x10, 0x00, 0x00})
 	one("map(text,text)", "def", []byte{0x00, 0x20, 0x00, 0x00})
